@@ -56,6 +56,8 @@ def input_text(item) -> str:
     """item: {"kind": "program", "prog": AST, ...} | {"kind": "text", "text": str}"""
     if item["kind"] == "text":
         return item["text"]
+    if "vdeep" in item:  # a very deep program is carried as its description (decomp._vdeep_program)
+        return render.render(decomp._vdeep_program(item["vdeep"])).text
     return render.render(item["prog"]).text
 
 
